@@ -73,8 +73,10 @@ def impl_eval(case):
                 b.write(memoryview(buf)[:len(r)] if i % 2 else buf[:len(r)] if i % 4 else memoryview(buf)[:len(r)].toreadonly())
                 buf[:len(r)] = b'\xa5' * len(r)
         else:
-            for r in recs:
+            for i, r in enumerate(recs):
                 b.write(r)
+                if case.get('flush') and i % case['flush'] == 0:
+                    b.flush()            # a caller flushing the file object between writes: no bytes of its own
         fin = case.get('fin', 'f')
         if fin == 'f':
             b.finalise()
@@ -150,6 +152,8 @@ def explore(run, tier):
         c = {'k': 'stream', 'lens': lens, 'fin': rng.choice(fins)}
         if rng.random() < 0.1:
             c['buf'] = 'reused'        # bytes-like arguments out of one reused buffer
+        elif rng.random() < 0.1:
+            c['flush'] = rng.choice([1, 2])       # flush() of the file object after every (second) write
         cases.append(c)
     for n in list(range(0, 40)) + list(range(1000, 1030)) + list(range(2010, 2040)) + list(range(3030, 3040)):
         cases.append({'k': 'oneshot', 'n': n})
@@ -159,6 +163,10 @@ def explore(run, tier):
         cases.append({'k': 'oneshot', 'n': n})
     for lens in ([65536], [70000], [131073], [1012 * 1100 + 7], [500, 1012 * 1050], [30000, 40000, 1], [1012 * 64, 5]):
         cases.append({'k': 'stream', 'lens': lens, 'fin': 'f'})
+    # flush() between writes, at every kind of position (mid-block, on a block edge, with the trailer pending)
+    for lens in ([500, 512, 3], [1012, 5], [100, 912, 1012, 7], [2024, 1], [1, 1, 1], [1011, 1, 1], [3000, 36, 5]):
+        for fl in (1, 2):
+            cases.append({'k': 'stream', 'lens': lens, 'fin': 'fsc'[(len(lens) + fl) % 3], 'flush': fl})
     # single writes that span five to twelve further blocks and end on / next to a block edge, from several residues
     for k in range(5, 13):
         for r in (0, 1, 100, 912, 1011):
